@@ -887,7 +887,14 @@ class NP:
         return asarray(x)._map(lambda v: True, "bool") if not _is_scalar(x) else True
 
     def round(self, x, decimals=0):
-        raise Unsupported("np.round on symbolic values")
+        """Rounding of symbolic values is an uninterpreted function (only tick positions use it)."""
+        def r(v):
+            c = concrete(v)
+            if c is not None:
+                return Q(round(Fraction(c), int(decimals)))
+            return simp(T.mkUF(f"round{int(decimals)}", (lift(v).p,)))
+        x = asarray(x) if not _is_scalar(x) else x
+        return x._map(r) if isinstance(x, SymArray) else r(x)
 
     def gradient(self, f, x):
         f, x = asarray(f), asarray(x)
